@@ -138,6 +138,11 @@ def explore(ctx):
             except NotImplementedError:
                 raised = True
             except Exception as e:
+                if "does not fit in format" in str(e):
+                    # an extreme of the random outlines (with a zero advance) lies beyond what a 16-bit hhea / head field can
+                    # hold: no font exists for this input (OpenType number range), whatever the CFF options
+                    ctx.klass("outside_opentype_number_range_rejected")
+                    break
                 ctx.spec_failure(case, "compileOTF raised %s: %s\n%s" % (type(e).__name__, e, traceback.format_exc()[-1000:]))
                 continue
             sub = "(@None backend)" if subr is None else "(Some %s)" % ("Cffsubr" if subr == "cffsubr" else "Compreffor")
